@@ -357,3 +357,311 @@ pub mod trace {
         push(line);
     }
 }
+
+/// Drop-in replacements for the `std::sync` / `std::thread` items used by the executor. With no scheduler
+/// installed they behave exactly like the std items. With a scheduler installed (`sched::install`) every
+/// `lock`, `try_lock`, guard drop, `join` and thread exit of a managed thread is a scheduling point: exactly
+/// one managed thread runs at a time and the next one is picked (seeded) among the threads whose pending
+/// operation can proceed. Every decision is logged with the set of enabled threads.
+pub mod sync {
+    use super::ctl;
+    use std::cell::Cell;
+    use std::collections::HashMap;
+    use std::ops::{Deref, DerefMut};
+    use std::sync::{Condvar, LockResult, TryLockError, TryLockResult};
+
+    pub use std::sync::Arc;
+
+    #[derive(Clone, Copy, Debug, PartialEq)]
+    enum Pending {
+        Lock(usize),
+        TryLock(usize),
+        Unlock(usize),
+        Join(usize),
+        Exit,
+    }
+
+    struct ThreadState {
+        pending: Option<Pending>,
+        finished: bool,
+    }
+
+    pub struct Scheduler {
+        rng: u64,
+        current: usize,
+        threads: Vec<ThreadState>,
+        owners: HashMap<usize, usize>,
+        names: Vec<String>,
+        queue_locks: usize,
+        pub deadlocked: bool,
+    }
+
+    static SCHED: std::sync::Mutex<Option<Scheduler>> = std::sync::Mutex::new(None);
+    static WAKE: Condvar = Condvar::new();
+
+    thread_local! {
+        /// id of this thread under the scheduler (0 = the thread that installed it)
+        static ME: Cell<usize> = const { Cell::new(0) };
+    }
+
+    pub mod sched {
+        use super::*;
+
+        pub fn install(seed: u64) {
+            let mut guard = SCHED.lock().unwrap_or_else(|e| e.into_inner());
+            *guard = Some(Scheduler {
+                rng: seed.wrapping_mul(0x9E3779B97F4A7C15) ^ 0xD1B54A32D192ED03,
+                current: 0,
+                threads: vec![ThreadState { pending: None, finished: false }],
+                owners: HashMap::new(),
+                names: Vec::new(),
+                queue_locks: 0,
+                deadlocked: false,
+            });
+            ME.with(|m| m.set(0));
+        }
+
+        pub fn uninstall() {
+            *SCHED.lock().unwrap_or_else(|e| e.into_inner()) = None;
+        }
+    }
+
+    fn log(line: String) {
+        if let Some(state) = ctl::STATE.lock().unwrap_or_else(|e| e.into_inner()).as_mut() {
+            state.log.push(line);
+        }
+    }
+
+    impl Scheduler {
+        fn next_random(&mut self) -> u64 {
+            self.rng ^= self.rng << 13;
+            self.rng ^= self.rng >> 7;
+            self.rng ^= self.rng << 17;
+            self.rng
+        }
+
+        fn enabled(&self, thread: usize) -> bool {
+            match self.threads[thread].pending {
+                None => false,
+                Some(Pending::Lock(id)) => !self.owners.contains_key(&id),
+                Some(Pending::Join(target)) => self.threads[target].finished,
+                Some(_) => true,
+            }
+        }
+
+        /// picks the next thread to run and performs the bookkeeping of its pending operation
+        fn pick(&mut self) {
+            let enabled: Vec<usize> = (0..self.threads.len()).filter(|t| self.enabled(*t)).collect();
+            if enabled.is_empty() {
+                if self.threads.iter().any(|t| !t.finished && t.pending.is_some()) {
+                    self.deadlocked = true;
+                    log("sch DEADLOCK".to_string());
+                    // hand the log to the parent process and die: the run cannot continue
+                    if let Some(state) = ctl::STATE.lock().unwrap_or_else(|e| e.into_inner()).as_mut() {
+                        use std::io::Write;
+                        let stdout = std::io::stdout();
+                        let mut out = stdout.lock();
+                        for line in &state.log {
+                            let _ = writeln!(out, "LOG {}", line);
+                        }
+                        let _ = out.flush();
+                    }
+                    std::process::abort();
+                }
+                return;
+            }
+            let chosen = enabled[(self.next_random() >> 11) as usize % enabled.len()];
+            let pending = self.threads[chosen].pending.take().unwrap();
+            let (kind, name, outcome) = match pending {
+                Pending::Lock(id) => {
+                    self.owners.insert(id, chosen);
+                    ("lock", self.names[id].clone(), "ok")
+                }
+                Pending::TryLock(id) => {
+                    if self.owners.contains_key(&id) {
+                        ("trylock", self.names[id].clone(), "fail")
+                    } else {
+                        self.owners.insert(id, chosen);
+                        ("trylock", self.names[id].clone(), "ok")
+                    }
+                }
+                Pending::Unlock(id) => {
+                    self.owners.remove(&id);
+                    ("unlock", self.names[id].clone(), "ok")
+                }
+                Pending::Join(target) => ("join", format!("t{}", target), "ok"),
+                Pending::Exit => {
+                    self.threads[chosen].finished = true;
+                    ("exit", "-".to_string(), "ok")
+                }
+            };
+            let enabled_text: Vec<String> = enabled.iter().map(|t| t.to_string()).collect();
+            log(format!("sch {} {} {} {} EN {}", chosen, kind, name, outcome, enabled_text.join(",")));
+            self.current = chosen;
+        }
+    }
+
+    /// Announces the operation this thread is about to perform and waits until the scheduler lets it perform it.
+    /// Returns `None` when no scheduler is installed, otherwise whether a try_lock succeeded (true for all else).
+    fn sched_point(pending: Pending) -> Option<bool> {
+        let me = ME.with(|m| m.get());
+        let mut guard = SCHED.lock().unwrap_or_else(|e| e.into_inner());
+        let scheduler = guard.as_mut()?;
+        if me >= scheduler.threads.len() {
+            return None;
+        }
+        scheduler.threads[me].pending = Some(pending);
+        let try_target = if let Pending::TryLock(id) = pending { Some(id) } else { None };
+        if scheduler.current == me {
+            scheduler.pick();
+        }
+        WAKE.notify_all();
+        loop {
+            let scheduler = guard.as_mut()?;
+            if scheduler.current == me && scheduler.threads[me].pending.is_none() {
+                let outcome = match try_target {
+                    Some(id) => scheduler.owners.get(&id) == Some(&me),
+                    None => true,
+                };
+                if pending == Pending::Exit {
+                    // the baton must not stay with a finished thread
+                    scheduler.pick();
+                    WAKE.notify_all();
+                }
+                return Some(outcome);
+            }
+            guard = WAKE.wait(guard).unwrap_or_else(|e| e.into_inner());
+        }
+    }
+
+    pub struct Mutex<T> {
+        inner: std::sync::Mutex<T>,
+        id: Option<usize>,
+    }
+
+    pub struct MutexGuard<'a, T> {
+        inner: Option<std::sync::MutexGuard<'a, T>>,
+        id: Option<usize>,
+    }
+
+    impl<T> Mutex<T> {
+        pub fn new(value: T) -> Mutex<T> {
+            let mut guard = SCHED.lock().unwrap_or_else(|e| e.into_inner());
+            let id = guard.as_mut().map(|scheduler| {
+                let type_name = std::any::type_name::<T>();
+                let name = if type_name.contains("ExecutionState") {
+                    "S".to_string()
+                } else {
+                    scheduler.queue_locks += 1;
+                    format!("q{}", scheduler.queue_locks - 1)
+                };
+                scheduler.names.push(name);
+                scheduler.names.len() - 1
+            });
+            Mutex { inner: std::sync::Mutex::new(value), id }
+        }
+
+        pub fn lock(&self) -> LockResult<MutexGuard<'_, T>> {
+            if let Some(id) = self.id {
+                sched_point(Pending::Lock(id));
+            }
+            let inner = self.inner.lock().unwrap_or_else(|e| e.into_inner());
+            Ok(MutexGuard { inner: Some(inner), id: self.id })
+        }
+
+        pub fn try_lock(&self) -> TryLockResult<MutexGuard<'_, T>> {
+            if let Some(id) = self.id {
+                if let Some(acquired) = sched_point(Pending::TryLock(id)) {
+                    if !acquired {
+                        return Err(TryLockError::WouldBlock);
+                    }
+                    let inner = self.inner.lock().unwrap_or_else(|e| e.into_inner());
+                    return Ok(MutexGuard { inner: Some(inner), id: self.id });
+                }
+            }
+            match self.inner.try_lock() {
+                Ok(inner) => Ok(MutexGuard { inner: Some(inner), id: self.id }),
+                Err(TryLockError::WouldBlock) => Err(TryLockError::WouldBlock),
+                Err(TryLockError::Poisoned(e)) => Ok(MutexGuard { inner: Some(e.into_inner()), id: self.id }),
+            }
+        }
+    }
+
+    impl<T> Deref for MutexGuard<'_, T> {
+        type Target = T;
+        fn deref(&self) -> &T {
+            self.inner.as_ref().unwrap()
+        }
+    }
+
+    impl<T> DerefMut for MutexGuard<'_, T> {
+        fn deref_mut(&mut self) -> &mut T {
+            self.inner.as_mut().unwrap()
+        }
+    }
+
+    impl<T> Drop for MutexGuard<'_, T> {
+        fn drop(&mut self) {
+            if let Some(id) = self.id {
+                // the release is the scheduled operation; the std guard is dropped once it has been granted
+                sched_point(Pending::Unlock(id));
+            }
+            self.inner.take();
+        }
+    }
+
+    pub mod thread {
+        use super::*;
+
+        pub struct JoinHandle<T> {
+            inner: std::thread::JoinHandle<T>,
+            id: Option<usize>,
+        }
+
+        impl<T> JoinHandle<T> {
+            pub fn join(self) -> std::thread::Result<T> {
+                if let Some(id) = self.id {
+                    sched_point(Pending::Join(id));
+                }
+                self.inner.join()
+            }
+        }
+
+        pub fn spawn<F, T>(f: F) -> JoinHandle<T>
+        where
+            F: FnOnce() -> T + Send + 'static,
+            T: Send + 'static,
+        {
+            let id = {
+                let mut guard = SCHED.lock().unwrap_or_else(|e| e.into_inner());
+                guard.as_mut().map(|scheduler| {
+                    scheduler.threads.push(ThreadState { pending: None, finished: false });
+                    scheduler.threads.len() - 1
+                })
+            };
+            let inner = std::thread::spawn(move || {
+                if let Some(id) = id {
+                    ME.with(|m| m.set(id));
+                }
+                let result = f();
+                if id.is_some() {
+                    sched_point(Pending::Exit);
+                }
+                result
+            });
+            if let Some(id) = id {
+                // wait until the child has announced its first operation, so that the set of enabled threads
+                // at the next decision does not depend on how fast the OS starts it
+                let mut guard = SCHED.lock().unwrap_or_else(|e| e.into_inner());
+                loop {
+                    match guard.as_ref() {
+                        Some(scheduler) if scheduler.threads[id].pending.is_none() && !scheduler.threads[id].finished => {}
+                        _ => break,
+                    }
+                    guard = WAKE.wait(guard).unwrap_or_else(|e| e.into_inner());
+                }
+            }
+            JoinHandle { inner, id }
+        }
+    }
+}
